@@ -77,9 +77,14 @@ func stripCtl(s string) string {
 
 // c18CheckHTMLOutput applies the property to sanitised output.
 func c18CheckHTMLOutput(c *fw.Ctx, cas c18Case, out string) {
+	c18CheckOut(c, cas.Kind, cas.Input, cas, out)
+}
+
+// c18CheckOut applies the output oracle; rc is the case a violation records for replay.
+func c18CheckOut(c *fw.Ctx, kind, input string, rc any, out string) {
 	nodes, err := parseFragment(out)
 	if err != nil {
-		c.Violate(cas.Kind+"|output-unparsable", fmt.Sprintf("sanitised output cannot be parsed: %v\ninput %q\noutput %q", err, cas.Input, out), cas)
+		c.Violate(kind+"|output-unparsable", fmt.Sprintf("sanitised output cannot be parsed: %v\ninput %q\noutput %q", err, input, out), rc)
 		return
 	}
 	for _, root := range nodes {
@@ -89,20 +94,20 @@ func c18CheckHTMLOutput(c *fw.Ctx, cas c18Case, out string) {
 			}
 			name := strings.ToLower(n.Data)
 			if c18Forbidden[name] {
-				c.Violate(cas.Kind+"|element|"+name, fmt.Sprintf("sanitised output contains a <%s> element\ninput %q\noutput %q", name, cas.Input, out), cas)
+				c.Violate(kind+"|element|"+name, fmt.Sprintf("sanitised output contains a <%s> element\ninput %q\noutput %q", name, input, out), rc)
 			}
 			for _, a := range n.Attr {
 				key := strings.ToLower(a.Key)
 				if strings.HasPrefix(key, "on") {
-					c.Violate(cas.Kind+"|event-handler", fmt.Sprintf("sanitised output contains event-handler attribute %s=%q on <%s>\ninput %q\noutput %q", a.Key, a.Val, name, cas.Input, out), cas)
+					c.Violate(kind+"|event-handler", fmt.Sprintf("sanitised output contains event-handler attribute %s=%q on <%s>\ninput %q\noutput %q", a.Key, a.Val, name, input, out), rc)
 				}
 				if v := strings.ToLower(stripCtl(a.Val)); strings.HasPrefix(v, "javascript:") && key != "style" {
-					c.Violate(cas.Kind+"|javascript-url", fmt.Sprintf("sanitised output contains %s=%q on <%s>\ninput %q\noutput %q", a.Key, a.Val, name, cas.Input, out), cas)
+					c.Violate(kind+"|javascript-url", fmt.Sprintf("sanitised output contains %s=%q on <%s>\ninput %q\noutput %q", a.Key, a.Val, name, input, out), rc)
 				}
 				if key == "style" {
 					for _, p := range cssDeclarations(a.Val) {
 						if !c18AllowedProps[p] {
-							c.Violate(cas.Kind+"|style-property", fmt.Sprintf("style attribute %q carries a declaration for %q, which is not on the allow-list\ninput %q\noutput %q", a.Val, p, cas.Input, out), cas)
+							c.Violate(kind+"|style-property", fmt.Sprintf("style attribute %q carries a declaration for %q, which is not on the allow-list\ninput %q\noutput %q", a.Val, p, input, out), rc)
 						}
 					}
 				}
